@@ -70,6 +70,7 @@ import contextlib
 import importlib
 import inspect
 import math
+import os
 from unittest import mock
 
 import torch
@@ -111,6 +112,8 @@ PROPOSED_OPEN = ("f32_exact_breakdown_zero_shift", "ciq_preconditioner_active", 
 def _open_triggers():
     from lov.findings import load
 
+    if os.environ.get("LOV_C11_NO_AVOID"):  # adjudication aid: let the search re-find every open finding
+        return set()
     status = {t: True for t in PROPOSED_OPEN}
     for e in load():
         if e.get("property") == ID and e.get("trigger"):
